@@ -45,6 +45,21 @@ from loky import ProcessPoolExecutor, get_reusable_executor  # noqa: E402
 from loky.backend import get_context  # noqa: E402
 import loky.process_executor as pe  # noqa: E402
 
+if CONFIG.get("send_limit"):
+    # a transport that refuses messages above a size, the way Connection.send_bytes refuses sizes it cannot encode
+    # (struct.error: the "too large to send" case of the property, unreachable with real data on this Python below 2**63 bytes).
+    # Only a queue feeder thread sends that much from this process: the call queue's.
+    import multiprocessing.connection as _mc
+    import struct as _struct
+    import threading as _thr
+
+    def _limited_send_bytes(self, buf, _orig=_mc.Connection._send_bytes, _lim=int(CONFIG["send_limit"])):
+        if len(buf) > _lim and _thr.current_thread().name.startswith("QueueFeederThread"):
+            raise _struct.error("'i' format requires -2147483648 <= number <= 2147483647")
+        return _orig(self, buf)
+
+    _mc.Connection._send_bytes = _limited_send_bytes
+
 if CONFIG.get("sigchld_ignore"):
     # a host application that ignores SIGCHLD: the kernel reaps children itself, waitpid gives ECHILD
     signal.signal(signal.SIGCHLD, signal.SIG_IGN)
